@@ -177,7 +177,7 @@ def c14_variants(tier):
     vdir = os.path.join(tb.TB, "variants")
     os.makedirs(vdir, exist_ok=True)
     C14_VARIANTS.clear()
-    n = 4 if tier == "quick" else 24
+    n = 8 if tier == "quick" else 32
     for k in range(n):
         rng = tb.stream(s, "C14", k, "layout")
         pads = [rng.randrange(16) for _ in range(5)]
@@ -327,7 +327,7 @@ def c14_replay(path):
     obj = json.load(open(path))
     r = obj["run"]
     d, gc, cg, kind = r["exe"]
-    variants = c14_variants(os.environ.get("VERIF_TIER", "quick") if not d.startswith("trapio_v") or int(d[8:]) < 4 else "thorough")
+    variants = c14_variants(os.environ.get("VERIF_TIER", "quick") if not d.startswith("trapio_v") or int(d[8:]) < 8 else "thorough")
     exes = tb.build_executables([d], [gc], [cg], sim=False, real=True, sources=variants)
     build_interposer()
     res = c14_execute(r, exes)
